@@ -158,7 +158,7 @@ def tlc_mc(scratch, module, cfg, workers=None, timeout=1800, label=None):
     stage_specs(d, cfg)
     t0 = time.time()
     p = run(["tlc", "-workers", str(workers or NCPU), "-metadir", os.path.join(d, "md"), "-config", cfg, module + ".tla"],
-            cwd=d, timeout=timeout, check=False)
+            cwd=d, timeout=timeout, check=False, extra_env={"JAVA_TOOL_OPTIONS": "-Xss512m -Djava.io.tmpdir=%s" % d})
     out = p.stdout or ""
     with open(os.path.join(d, "tlc.log"), "w") as f:
         f.write(out)
@@ -208,7 +208,8 @@ def tlc_trace_one(d, module, cfg, timeout):
     up to it; eight validations in parallel, of several checks at a time, were killed by the kernel's OOM killer.  A trace needs far less:
     the heap is capped (VERIF_TRACE_XMX, default 4g), and a process that died without a TLC error message is run once more, alone."""
     t0 = time.time()
-    jopts = {"JAVA_TOOL_OPTIONS": "-Xss512m -Xmx" + TRACE_XMX}
+    # (java.io.tmpdir: TLC leaves a tlc-* entry per run in the temporary directory; inside the scratch directory it goes away with it)
+    jopts = {"JAVA_TOOL_OPTIONS": "-Xss512m -Xmx%s -Djava.io.tmpdir=%s" % (TRACE_XMX, d)}
     cmd = ["tlc", "-workers", "1", "-metadir", os.path.join(d, "md"), "-config", cfg, module + ".tla"]
     p = run(cmd, cwd=d, timeout=timeout, check=False, extra_env=jopts)
     out = p.stdout or ""
@@ -218,7 +219,7 @@ def tlc_trace_one(d, module, cfg, timeout):
     if died or (heap and not os.path.exists(res)):
         with _retry_lock:
             shutil.rmtree(os.path.join(d, "md"), ignore_errors=True)
-            p = run(cmd, cwd=d, timeout=timeout, check=False, extra_env={"JAVA_TOOL_OPTIONS": "-Xss512m -Xmx14g"})
+            p = run(cmd, cwd=d, timeout=timeout, check=False, extra_env={"JAVA_TOOL_OPTIONS": "-Xss512m -Xmx14g -Djava.io.tmpdir=%s" % d})
             out = p.stdout or ""
     with open(os.path.join(d, "tlc.log"), "w") as f:
         f.write(out)
